@@ -130,6 +130,10 @@ C["C09"] = dict(assumptions=["torrent fixture: real newTorrent/startPeer/handler
     H("ZZPickerSequential4", "torrent", "4 events, sequential", None, T(40, 7000, 32, 8, flags=["-nospawn"]), replay="model"),
 ])
 
+C["C14"] = dict(assumptions=["metainfo parser replaced by 'parses to a fixed 2-piece torrent or is rejected'", "resume database replaced by its contract: one update = one atomic transaction that succeeds or fails as a whole (Write may fail; bucket deletion succeeds)", "uuid.NewV1 replaced by distinct values", "torrent event loops not started (ghost workers honour Close)", "restart equivalence, field-wise resume round trips and concurrent callers are outside the claim"], harnesses=[
+    H("ZZRegistrySeq", "torrent", "every sequence of 3 AddTorrent/RemoveTorrent operations on a real Session value with a 2-port range (explicit or generated ids; metainfo rejection, storage failure, resume-write failure injected arbitrarily): ids unique, no two live torrents share a port, every port free or owned exactly once, failed add releases exactly its port and registers nothing, session torrents == resume records", T(40, 1800, 4, 5, flags=["-nospawn"]), T(40, 1800, 4, 5, flags=["-nospawn"]), replay="model"),
+])
+
 for pid, spec in C.items():
     spec = dict(property=pid, **spec)
     json.dump(spec, open(os.path.join(D, pid + ".json"), "w"), indent=1)
